@@ -24,7 +24,7 @@ PROPS = ['C14_two_points_unit', 'C14_two_points_reach', 'C14_two_points_reach_un
          'C14_grid_single_refuted', 'C14_box_in', 'C14_count_grid', 'C14_count_circle', 'C14_count_sphere', 'C14_count_box',
          'C14_lattice2_nth', 'C14_lattice3_nth', 'C14_grid_coordQ_R', 'C14_box_coordQ_R', 'C14_closeQ_sound', 'C14_instance']
 PRE = ('From Coq Require Import List QArith. Import ListNotations.\nFrom OdakV Require Import C14.Model.\nOpen Scope Q_scope.')
-TOL32, TOL64 = 2e-5, 1e-10          # relative to the scale of the configuration
+TOL32, TOL64 = 1e-6, 1e-12          # relative to the scale of the configuration (used with factors 10 and 100)
 COS_TOL32 = 5e-6                    # cosine of the deviation, float32 rays
 
 
@@ -393,7 +393,7 @@ def q3(p):
 def correspondence(ctx):
     lr, nr, nt, lt = api()
     rng = ctx.rng
-    cnt = 28 if ctx.thorough else 9
+    cnt = 90 if ctx.thorough else 9
     terms, meta = [], []
     for t in range(cnt):
         n0, n1, n2 = rng.randint(1, 7), rng.randint(1, 7), rng.randint(1, 4)
@@ -620,7 +620,7 @@ def run(ctx):
     correspondence(ctx)
     ctx.log('correspondence done')
     # direct oracles
-    for name, inp, cat in gen_inputs(ctx, 160 if ctx.thorough else 24):
+    for name, inp, cat in gen_inputs(ctx, 1200 if ctx.thorough else 40):
         bad, res = apply_oracle(ctx, name, inp)
         ctx.case('oracle/' + cat, (name, json.dumps(inp, sort_keys=True)), nontrivial=len(res) >= 2)
         if len(ctx.samples) < 5 and name in ('point_lum', 'grid', 'sphere'):
